@@ -31,7 +31,9 @@ def PickInv (zone : String) (seen : List Cand) : Option Cand → Prop
   | none => ∀ x ∈ seen, x.2.zone ≠ zone
   | some c => c ∈ seen ∧ c.2.zone = zone ∧
       (∀ h ∈ seen, h.2.zone = zone → c.2.ro = true → h.2.ro = true) ∧
-      (∀ h ∈ seen, h.2.zone = zone → h.2.ro = c.2.ro → idxLt (indexFromSuffix c.1) (indexFromSuffix h.1) = false)
+      (∀ h ∈ seen, h.2.zone = zone → h.2.ro = c.2.ro → idxLt (indexFromSuffix c.1) (indexFromSuffix h.1) = false) ∧
+      (∃ A B, seen = A ++ c :: B ∧ ∀ x ∈ B, x.2.zone = zone →
+        (x.2.ro = true ∧ c.2.ro = false) ∨ (x.2.ro = c.2.ro ∧ idxLt (indexFromSuffix x.1) (indexFromSuffix c.1) = true))
 
 theorem pickStep_inv (zone : String) (seen : List Cand) (best : Option Cand) (cand : Cand)
     (h : PickInv zone seen best) : PickInv zone (seen ++ [cand]) (pickStep zone best cand) := by
@@ -42,7 +44,7 @@ theorem pickStep_inv (zone : String) (seen : List Cand) (best : Option Cand) (ca
     cases best with
     | none =>
       simp only [PickInv] at h ⊢
-      refine ⟨by simp, hz, ?_, ?_⟩
+      refine ⟨by simp, hz, ?_, ?_, ⟨seen, [], by simp, by simp⟩⟩
       · intro x hx hxz _
         rcases List.mem_append.mp hx with hx | hx
         · exact absurd hxz (h x hx)
@@ -52,13 +54,13 @@ theorem pickStep_inv (zone : String) (seen : List Cand) (best : Option Cand) (ca
         · exact absurd hxz (h x hx)
         · simp at hx; subst hx; exact idxLt_irrefl _
     | some b =>
-      obtain ⟨hbm, hbz, hbro, hbmax⟩ := h
+      obtain ⟨hbm, hbz, hbro, hbmax, A, B, hAB, hB⟩ := h
       simp only
       by_cases h1 : (b.2.ro && !cand.2.ro) = true
       · -- best is read-only, candidate is not: take the candidate
         rw [if_pos h1]
         simp only [Bool.and_eq_true, Bool.not_eq_true'] at h1
-        refine ⟨by simp, hz, ?_, ?_⟩
+        refine ⟨by simp, hz, ?_, ?_, ⟨seen, [], by simp, by simp⟩⟩
         · intro x _ _ hc; rw [h1.2] at hc; cases hc
         · intro x hx hxz hxro
           rcases List.mem_append.mp hx with hx | hx
@@ -70,19 +72,23 @@ theorem pickStep_inv (zone : String) (seen : List Cand) (best : Option Cand) (ca
         · -- candidate is read-only, best is not: keep best
           rw [if_pos h2]
           simp only [Bool.and_eq_true, Bool.not_eq_true'] at h2
-          refine ⟨by simp [hbm], hbz, ?_, ?_⟩
+          refine ⟨by simp [hbm], hbz, ?_, ?_, ⟨A, B ++ [cand], by rw [hAB]; simp, ?_⟩⟩
           · intro x _ _ hc; rw [h2.2] at hc; cases hc
           · intro x hx hxz hxro
             rcases List.mem_append.mp hx with hx | hx
             · exact hbmax x hx hxz hxro
             · simp at hx; subst hx; rw [h2.1, h2.2] at hxro; cases hxro
+          · intro x hx hxz
+            rcases List.mem_append.mp hx with hx | hx
+            · exact hB x hx hxz
+            · simp at hx; subst hx; exact Or.inl ⟨h2.1, h2.2⟩
         · rw [if_neg h2]
           -- same read-only class
           have hsame : cand.2.ro = b.2.ro := by
             cases hc : cand.2.ro <;> cases hb : b.2.ro <;> simp [hc, hb] at h1 h2 ⊢
           by_cases h3 : idxLt (indexFromSuffix cand.1) (indexFromSuffix b.1) = true
           · rw [if_pos h3]
-            refine ⟨by simp [hbm], hbz, ?_, ?_⟩
+            refine ⟨by simp [hbm], hbz, ?_, ?_, ⟨A, B ++ [cand], by rw [hAB]; simp, ?_⟩⟩
             · intro x hx hxz hc
               rcases List.mem_append.mp hx with hx | hx
               · exact hbro x hx hxz hc
@@ -91,9 +97,13 @@ theorem pickStep_inv (zone : String) (seen : List Cand) (best : Option Cand) (ca
               rcases List.mem_append.mp hx with hx | hx
               · exact hbmax x hx hxz hxro
               · simp at hx; subst hx; exact idxLt_asymm _ _ h3
+            · intro x hx hxz
+              rcases List.mem_append.mp hx with hx | hx
+              · exact hB x hx hxz
+              · simp at hx; subst hx; exact Or.inr ⟨hsame, h3⟩
           · rw [if_neg h3]
             have h3' : idxLt (indexFromSuffix cand.1) (indexFromSuffix b.1) = false := by simpa using h3
-            refine ⟨by simp, hz, ?_, ?_⟩
+            refine ⟨by simp, hz, ?_, ?_, ⟨seen, [], by simp, by simp⟩⟩
             · intro x hx hxz hc
               rcases List.mem_append.mp hx with hx | hx
               · exact hbro x hx hxz (by rw [← hsame]; exact hc)
@@ -112,8 +122,8 @@ theorem pickStep_inv (zone : String) (seen : List Cand) (best : Option Cand) (ca
       · exact h x hx
       · simp at hx; subst hx; exact hz
     | some b =>
-      obtain ⟨hbm, hbz, hbro, hbmax⟩ := h
-      refine ⟨by simp [hbm], hbz, ?_, ?_⟩
+      obtain ⟨hbm, hbz, hbro, hbmax, A, B, hAB, hB⟩ := h
+      refine ⟨by simp [hbm], hbz, ?_, ?_, ⟨A, B ++ [cand], by rw [hAB]; simp, ?_⟩⟩
       · intro x hx hxz hc
         rcases List.mem_append.mp hx with hx | hx
         · exact hbro x hx hxz hc
@@ -121,6 +131,10 @@ theorem pickStep_inv (zone : String) (seen : List Cand) (best : Option Cand) (ca
       · intro x hx hxz hxro
         rcases List.mem_append.mp hx with hx | hx
         · exact hbmax x hx hxz hxro
+        · simp at hx; subst hx; exact absurd hxz hz
+      · intro x hx hxz
+        rcases List.mem_append.mp hx with hx | hx
+        · exact hB x hx hxz
         · simp at hx; subst hx; exact absurd hxz hz
 
 theorem foldl_pick_inv (zone : String) : ∀ (l seen : List Cand) (best : Option Cand),
@@ -204,7 +218,9 @@ theorem multiReplSet_exact (d : PDesc) (insts : Ring.Desc) (hs : List Bool) (t n
     ∃ picks : List Cand, ids = picks.map (·.2.id) ∧
       Forall2 (fun z c => c ∈ found ∧ c.2.zone = z ∧
         (∀ x ∈ found, x.2.zone = z → c.2.ro = true → x.2.ro = true) ∧
-        (∀ x ∈ found, x.2.zone = z → x.2.ro = c.2.ro → idxLt (indexFromSuffix c.1) (indexFromSuffix x.1) = false))
+        (∀ x ∈ found, x.2.zone = z → x.2.ro = c.2.ro → idxLt (indexFromSuffix c.1) (indexFromSuffix x.1) = false) ∧
+        (∃ A B, found = A ++ c :: B ∧ ∀ x ∈ B, x.2.zone = z →
+          (x.2.ro = true ∧ c.2.ro = false) ∨ (x.2.ro = c.2.ro ∧ idxLt (indexFromSuffix x.1) (indexFromSuffix c.1) = true)))
         zones picks := by
   intro found zones
   unfold multiReplSet at h
